@@ -8,10 +8,11 @@ import (
 	"github.com/ElrondNetwork/elrond-vm-common/zz_verif/world"
 )
 
-// aliasedRead is the input class of finding F3: some token cell the call read holds an entry
-// that does not belong to the (token, nonce) that was asked for - no metadata although an
-// NFT was requested, or metadata although a fungible balance was requested, or metadata of
-// another nonce (token-id‖nonce concatenations alias each other's keys).
+// aliasedRead is the input class of finding F3: some NFT cell the call read holds metadata of
+// another nonce than the one asked for (token-id‖nonce concatenations alias each other's
+// keys: token "A" nonce 0x4243 and token "AB" nonce 0x43 share one key). The other faces of
+// the aliasing defect (an entry without metadata under an NFT request, an NFT entry under a
+// fungible request) were repaired by fix a075e33 and are not part of this class.
 func aliasedRead(s *Scn, acct *world.Account) bool {
 	if acct == nil {
 		return false
@@ -22,22 +23,14 @@ func aliasedRead(s *Scn, acct *world.Account) bool {
 			continue
 		}
 		t := s.W.Codec.Token(c.Init)
-		if t == nil {
+		if t == nil || t.TokenMetaData == nil {
 			continue
 		}
-		// the request that produced this key: either tokenKey(tok) (nonce 0) or nftKey(tok, nonce)
 		for _, rq := range s.requests() {
-			if len(rq.key) != len(c.Key) {
+			if rq.nonce == nil || len(rq.key) != len(c.Key) {
 				continue
 			}
-			same := verif.BytesEq(rq.key, c.Key)
-			if rq.nonce == nil {
-				r = verif.Or(r, verif.And(same, t.TokenMetaData != nil))
-			} else if t.TokenMetaData == nil {
-				r = verif.Or(r, same)
-			} else {
-				r = verif.Or(r, verif.And(same, t.TokenMetaData.Nonce != nonceOf(rq.nonce)))
-			}
+			r = verif.Or(r, verif.And(verif.BytesEq(rq.key, c.Key), t.TokenMetaData.Nonce != nonceOf(rq.nonce)))
 		}
 	}
 	return r
@@ -75,6 +68,7 @@ func (s *Scn) requests() []request {
 func totalCheck(s *Scn) {
 	panicked := s.RunCatch()
 	if panicked {
+		verif.Note(verif.LastPanic())
 		verif.AssertExcept("no-panic", false, "F3", verif.Or(aliasedRead(s, s.Snd), aliasedRead(s, s.Dst)))
 		return
 	}
